@@ -49,8 +49,14 @@ package harfbuzz
 //@ trusted NewBuffer
 //@   ensures [non-nil] result != nil
 //@   modifies nothing
-//@ trusted Buffer.Clear
-//@   modifies all(Buffer); all(GlyphInfo); all(GlyphPosition); all(rune)
+// Clear (C13, "Buffer.Clear before each shape"): every field that describes the previous text or its shaping state
+// is back to the value NewBuffer gives it; only the plan cache and the allocated capacity survive.
+//@ func Buffer.Clear C13
+//@   mode int
+//@   ensures [contents-emptied] len(b.Info) == 0 && len(b.Pos) == 0 && len(b.outInfo) == 0 && len(b.context[0]) == 0 && len(b.context[1]) == 0
+//@   ensures [settings-reset] b.ClusterLevel == 0 && b.Flags == 0 && b.Invisible == 0 && b.NotFound == 0 && b.Props.Direction == 0 && b.Props.Script == 0 && b.Props.Language == ""
+//@   ensures [state-reset] b.scratchFlags == 0 && !b.haveOutput && b.idx == 0 && b.serial == 0
+//@   modifies b.ClusterLevel; b.Flags; b.Invisible; b.NotFound; b.Props; b.scratchFlags; b.haveOutput; b.idx; b.Info; b.outInfo; b.Pos; b.context; b.serial
 //@ trusted NewFont
 //@   ensures [captures-face] result != nil && result.face == face
 //@   modifies nothing
